@@ -99,7 +99,7 @@ func runC09(c *hx.Ctx) *hx.Outcome {
 	s.ChooseStrategy()
 	s.SetStarveKey([]string{"consumer", "file_handler", "app_core", "handler.go"}[t.D(4)])
 	s.Budget = 96*(len(wire)+16)*(1+nonNil/2) + 8192
-	src := &env.Source{T: t, Data: wire, MaxChunk: maxChunk, ZeroReads: t.SBool(1, 4)}
+	src := &env.Source{T: t, Data: wire, MaxChunk: maxChunk, ZeroReads: t.SBool(1, 4), DataWithErr: t.SBool(1, 3)}
 	returned := false
 	retCode := -1
 	var liveAtEnd []string
@@ -146,6 +146,10 @@ func runC09(c *hx.Ctx) *hx.Outcome {
 	o.Verdict, o.Strategy = verdict, rt.StratNames[s.Strategy]
 	o.ProbeN("source-reads", src.Reads)
 	o.ProbeN("zero-length-reads", src.ZeroN)
+	o.ProbeN("data-returned-with-eof", src.DataErrs)
+	if src.DataErrs > 0 {
+		o.Fault("source:data-together-with-error")
+	}
 	if len(s.Panics) > 0 {
 		cls := "C09/panic"
 		if strings.Contains(s.PanicMsg[0], "close of closed channel") {
@@ -291,7 +295,7 @@ func runC13(c *hx.Ctx) *hx.Outcome {
 	s.ChooseStrategy()
 	s.SetStarveKey([]string{"consumer", "handler.go", "file-handler"}[t.D(3)])
 	s.Budget = 96*(len(data)+16) + 20000
-	src := &env.Source{T: t, Data: data, Ints: ints, MaxChunk: []int{1, 7, 64, 4096}[t.S(4)]}
+	src := &env.Source{T: t, Data: data, Ints: ints, MaxChunk: []int{1, 7, 64, 4096}[t.S(4)], DataWithErr: t.SBool(1, 3)}
 	var got []rtcm.Message
 	closed := 0
 	returned := false
@@ -326,6 +330,9 @@ func runC13(c *hx.Ctx) *hx.Outcome {
 	o.ProbeN("eof-results", src.EOFs+src.EndEOFs)
 	o.ProbeN("timeout-results", src.Timeouts)
 	o.ProbeN("fatal-results", src.Fatals)
+	if src.DataErrs > 0 {
+		o.Fault("source:data-together-with-error")
+	}
 	_ = stoppedAfter
 	_ = waitD
 	if len(s.Panics) > 0 {
